@@ -51,7 +51,15 @@ theorem pass_writes_only_output_and_temp_targets (cfg : Cfg) (fs : FS) (src : Pa
     ∀ p ∈ (runPass cfg fs src first).2.touched, p ∈ fs.touched ∨
       ∃ content, fs.file? src = some content ∧
         (outputPath src = some p ∨ TempTarget cfg fs src.dropLast (decodeLines (byteLines content.toList)).1 p) :=
-  runPass_scope cfg fs src first
+  ⟨(runPass_scope cfg fs src first).1, (runPass_scope cfg fs src first).2.1⟩
+
+/-- … directly on contents (no touch set): a path that is neither the output path nor the resolved
+non-`.txtpp` target of a `temp` block of the source holds after the pass exactly what it held before -/
+theorem pass_changes_nothing_outside_its_scope (cfg : Cfg) (fs : FS) (src : Path) (first : Bool) (q : Path)
+    (hq : ¬ ∃ content, fs.file? src = some content ∧
+        (outputPath src = some q ∨ TempTarget cfg fs src.dropLast (decodeLines (byteLines content.toList)).1 q)) :
+    (runPass cfg fs src first).2.file? q = fs.file? q :=
+  (runPass_scope cfg fs src first).2.2 q hq
 
 /-- … and for the complete run: every touched path is the output path or a `temp` target of a source
 whose bytes are those of the initial file system, or of a source the run itself generated -/
